@@ -83,16 +83,23 @@ type diffSide struct {
 }
 
 type diffRun struct {
-	cfg  mapCfg
-	kc   *keyCodec
-	vc   *valCodec
-	st   *recStore
-	proj *projector
-	rng  *rand.Rand
+	wcache mast.NodeCache // the writer's node cache (mode "wp": the new side stays the writer's own handle)
+	cfg    mapCfg
+	kc     *keyCodec
+	vc     *valCodec
+	st     *recStore
+	proj   *projector
+	rng    *rand.Rand
 }
 
 func (r *diffRun) rcfg() *mast.RemoteConfig {
-	return &mast.RemoteConfig{KeysLike: r.kc.zero, ValuesLike: r.vc.zero, StoreImmutablePartsWith: r.st}
+	c := &mast.RemoteConfig{KeysLike: r.kc.zero, ValuesLike: r.vc.zero, StoreImmutablePartsWith: r.st, NodeCache: r.wcache}
+	if r.cfg.Cmp {
+		// a caller-supplied order with the same sign as the default one, but magnitudes other than 1 (like "a - b")
+		def := mast.DefaultKeyCompare(json.Marshal)
+		c.KeyCompare = func(a, b interface{}) (int, error) { x, err := def(a, b); return 7 * x, err }
+	}
+	return c
 }
 
 func (r *diffRun) fresh() *diffSide {
@@ -323,12 +330,13 @@ func diffCase(id int, seed int64, out *json.Encoder, big bool) {
 	cfg.NK = 3 + rng.Intn(8)
 	cfg.NV = 2
 	cfg.KT = keyTypes[rng.Intn(len(keyTypes))]
-	cfg.VT = []string{"int", "string", "struct", "intslice"}[rng.Intn(4)]
+	cfg.VT = []string{"int", "string", "struct", "intslice", "ptrstruct"}[rng.Intn(5)]
+	cfg.Cmp = rng.Intn(4) == 0 && cfg.KT != "struct"
 	cfg.NF = []string{"bin", "v1"}[rng.Intn(2)]
 	cfg.Cache = "none"
 	if big {
 		cfg.NK = 300 + rng.Intn(1500)
-		cfg.Bf = []uint{4, 16}[rng.Intn(2)]
+		cfg.Bf = []uint{2, 3, 4, 16, 16}[rng.Intn(5)]
 		cfg.KT = []string{"int", "uint64", "string"}[rng.Intn(3)]
 		cfg.VT = "int"
 	}
@@ -346,6 +354,10 @@ func diffCase(id int, seed int64, out *json.Encoder, big bool) {
 	r.vc = newValCodec(cfg.VT)
 	r.st = newRecStore(fmt.Sprintf("diff-%d", id))
 	r.proj = &projector{nf: cfg.NF, kc: r.kc, vc: r.vc, st: r.st}
+	writerCache := rng.Intn(5) == 0
+	if writerCache {
+		r.wcache = mast.NewNodeCache(8192)
+	}
 
 	ev := &diffEvent{Op: "diff", ID: id, Cfg: &r.cfg, Big: big, Stops: []diffStop{}, Fails: []diffStop{},
 		Old: []term{}, New: []term{}, Added: []term{}, Removed: []term{}, Cb: [][]int{}, Cur: [][]int{}}
@@ -448,7 +460,12 @@ func diffCase(id int, seed int64, out *json.Encoder, big bool) {
 
 	ev.Stores = "one"
 	var mirror, oldOnly *recStore
-	if bothPersisted {
+	if bothPersisted && writerCache {
+		// the writer works through a node cache: the new version is diffed through the writer's own handle (what it reads comes from
+		// its cache), the old version through a handle opened without any cache
+		ev.Stores = "writer"
+	}
+	if bothPersisted && !writerCache {
 		if rng.Intn(3) == 0 {
 			// two independent stores: the old version is read from a store that holds only the old version's nodes, the new
 			// version from one that holds only the new version's nodes (a replica diffing a publisher's version)
@@ -477,6 +494,19 @@ func diffCase(id int, seed int64, out *json.Encoder, big bool) {
 		var cache mast.NodeCache
 		if ev.DCache {
 			cache = mast.NewNodeCache(4096)
+		}
+		if writerCache {
+			var o2 *mast.Mast
+			if oldS != nil {
+				c := r.rcfg()
+				c.NodeCache = nil
+				m, err := oldS.root.LoadMast(ctx, c)
+				if err != nil {
+					panic(err)
+				}
+				o2 = m
+			}
+			return newS.m, o2
 		}
 		open := func(s *diffSide, st *recStore) *mast.Mast {
 			c := r.rcfg()
